@@ -27,14 +27,7 @@ use core::mem::size_of;
 //@type protocol/src/operation.rs :: Operation
 //@type protocol/src/topic_name.rs :: TopicName
 //@type protocol/src/frame.rs :: Headers
-//@const protocol/src/frame.rs :: REGISTER_PUBLISHER
-//@const protocol/src/frame.rs :: REGISTER_SUBSCRIBER
-//@const protocol/src/frame.rs :: REGISTER_REPLIER
-//@const protocol/src/frame.rs :: REGISTER_REQUESTOR
-//@const protocol/src/frame.rs :: MESSAGE
-//@const protocol/src/frame.rs :: BATCH_MESSAGE
-//@const protocol/src/frame.rs :: ERROR
-//@const protocol/src/frame.rs :: OK
+//@consts protocol/src/frame.rs
 //@type protocol/src/frame.rs :: PublisherPayload
 //@type protocol/src/frame.rs :: SubscriberPayload
 //@type protocol/src/frame.rs :: ReplierPayload
@@ -43,10 +36,7 @@ use core::mem::size_of;
 //@type protocol/src/frame.rs :: ErrorPayload
 //@type protocol/src/frame.rs :: Frame
 
-//@const protocol/src/codec.rs :: MAX_MESSAGE_SIZE
-//@const protocol/src/codec.rs :: LEN_MARKER_SIZE [exec=LEN_MARKER_SIZE == 8]
-//@const protocol/src/codec.rs :: TYPE_MARKER_SIZE [exec=TYPE_MARKER_SIZE == 1]
-//@const protocol/src/codec.rs :: RESERVED_SIZE [exec=RESERVED_SIZE == 9]
+//@consts protocol/src/codec.rs
 //@type protocol/src/codec.rs :: MessageCodec
 
 // ------------------------------------------------------------------------------------------
@@ -230,7 +220,7 @@ pub open spec fn dec_batch(s: Seq<u8>) -> Option<Seq<Seq<u8>>> {
 pub open spec fn views(v: Seq<Bytes>) -> Seq<Seq<u8>> { Seq::new(v.len(), |i: int| v[i]@) }
 
 //@rename protocol/src/utils.rs :: LEN_MARKER_SIZE => BATCH_LEN_MARKER_SIZE
-//@const protocol/src/utils.rs :: LEN_MARKER_SIZE [exec=BATCH_LEN_MARKER_SIZE == 8]
+//@consts protocol/src/utils.rs
 //@fn protocol/src/utils.rs :: - :: decode_message_batch [props=C05 C06] [noisolation]
     requires
         alloc_budget() == bytes@.len(),                                             // ghost: the only memory a decoder may ask for
